@@ -44,8 +44,9 @@ class C11(Prop):
     budgets = {'quick': 3000, 'thorough': 40000}
     time_limit = {'quick': 60, 'thorough': 600}
     rule = ('random decorator trees of depth 1-3, fan-out 1-3 over recording sinks and StreamFailFast leaves (copy / tagger with add+discard '
-            'sets over 4 tags / timestamper / StreamToQueue with code "0","1","ab" drained into its inner result); 0-3 caller tag objects '
-            '(set or frozenset, possibly empty, re-used by several calls); call scripts startTestRun, 0-5 status (all ten fields varied), '
+            'sets over 4 tags / timestamper / StreamToQueue with code "0","1","ab" or the empty code drained into its inner result); 0-3 caller tag objects '
+            '(set or frozenset, possibly empty, re-used by several calls); call scripts startTestRun, 0-5 status (all ten fields varied; test ids, route codes '
+            'and file names incl. the empty string; 30% with one event sent twice), '
             'stopTestRun, 15% in unusual order. thorough adds every tree with <= 2 inner nodes on a path and fan-out <= 2 over a fixed '
             '5-call script. non-trivial = at least one status call and (>= 2 leaves or a field-owning decorator on some path); '
             'distinct = distinct input S-expression')
@@ -154,20 +155,23 @@ class C11(Prop):
             return ['tagger', add, dis] + [self.gen_tree(rng, depth - 1) for _ in range(rng.choice([0, 1, 1, 1, 2, 2, 2, 3, 3]))]
         if k == 'stamp':
             return ['stamp', self.gen_tree(rng, depth - 1)]
-        return ['queue', [ord(c) for c in rng.choice(['0', '1', 'ab'])], self.gen_tree(rng, depth - 1)]
+        return ['queue', [ord(c) for c in rng.choice(['0', '1', 'ab', 'ab', ''])], self.gen_tree(rng, depth - 1)]        # '': falsy but a legal routing code
 
     def gen_event(self, rng, nobj):
         tags = None if nobj == 0 or rng.random() < 0.3 else rng.randrange(nobj)
-        fname = rng.choice([None, None, 2, 4])
-        return ev(rng.choice([None, 0, 1]), rng.choice(STATUSES + ['fail', 'uxsuccess']), tags, rng.random() < 0.8, fname,
+        fname = rng.choice([None, None, 2, 4, 5])          # 5: the empty file name
+        return ev(rng.choice([None, 0, 1, S.EMPTY_ID]), rng.choice(STATUSES + ['fail', 'uxsuccess']), tags, rng.random() < 0.8, fname,
                   None if fname is None and rng.random() < 0.9 else rng.choice([[], [65], [0, 255]]), rng.random() < 0.3,
-                  rng.choice([None, 0, 1, 2]), rng.choice([None, None, 'r', 'r/s', '0', '']), rng.choice([None, None, 1, 5]))
+                  rng.choice([None, 0, 1, 2, 12]), rng.choice([None, None, 'r', 'r/s', '0', '']), rng.choice([None, None, 1, 5]))
 
     def gen(self, rng, tier):
         tree = self.gen_tree(rng, rng.choice([1, 2, 2, 3, 3]), root=True)
         nobj = rng.choice([0, 1, 2, 2, 3])
         objs = [[rng.random() < 0.4, sorted(rng.sample([0, 1, 2, 3], rng.choice([0, 1, 2, 2, 3])))] for _ in range(nobj)]
         status = [['status', self.gen_event(rng, nobj)] for _ in range(rng.choice([0, 1, 2, 3, 4, 5]))]
+        if status and rng.random() < 0.3:
+            # the very same event (same caller objects, same timestamp) once more
+            status.insert(rng.randrange(len(status) + 1), list(rng.choice(status)))
         calls = ['start'] + status + ['stop']
         if rng.random() < 0.15:
             calls = calls + rng.choice([[], ['start'], ['stop'], ['start'] + status[:1] + ['stop']])
